@@ -274,7 +274,7 @@ PROPS = {
         "harness": "c19", "driver": "c19", "shards": 4, "harness_shards": 16,
         "classify": c19_class,
         "nontrivial": lambda cls: cls["scenario"] == "broadcast-tags" or cls.get("script_len", 0) >= 1,
-        "rule": "cases = every per-attempt behaviour script of length <= min(max+1,3) (quick; at most one silent attempt) / <= max+2 (thorough) over {refused, accepted-then-closed, closed-while-idle, silent, malformed reply, application error, success} for max_attempts 1..3, blocking and async fleet, each followed by len+2 calls during which the node turns healthy; the fleet.attempt probe switches the scripted node synchronously before every attempt; plus tag-subset broadcasts over up to 3 nodes x 3 tags; distinct = distinct scenario; non-trivial = non-empty script or a tag broadcast Scripted application-error replies carry varying codes (4096, Timeout, ResourceExhausted, InternalError, MethodNotFound); broadcast tag lists sometimes name every tag twice. Behaviour J (success frame with cut-short JSON: a reply, not retried); zero retry delay on even script lengths; slow=<i>: a broadcast node that answers after default_timeout but within its own timeout must still be reported; a result carrying both a value and an error is a violation (driver-level clause). mon=3: the async scripts of length <= 2 are run again while three monitor tasks poll is_connected / connected_nodes from other runtime threads (observers only; same model and oracle). duo=1: two concurrent callers (call_json / call_message) share one node's cached connection; caller A's request is read and never answered, caller B's request, sent half a timeout later, is answered as soon as A has given its first attempt up, well inside B's deadline (ready=1 records that the node wrote the reply in time, otherwise the case is not judged); driver-level clauses: B reports that reply after exactly one attempt and the node sees B's request exactly once, A stays within max_attempts and reports an error, one of two calls afterwards succeeds.",
+        "rule": "cases = every per-attempt behaviour script of length <= min(max+1,3) (quick; at most one silent attempt) / <= max+2 (thorough) over {refused, accepted-then-closed, closed-while-idle, silent, malformed reply, application error, success} for max_attempts 1..3, blocking and async fleet, each followed by len+2 calls during which the node turns healthy; the fleet.attempt probe switches the scripted node synchronously before every attempt; plus tag-subset broadcasts over up to 3 nodes x 3 tags; distinct = distinct scenario; non-trivial = non-empty script or a tag broadcast Scripted application-error replies carry varying codes (4096, Timeout, ResourceExhausted, InternalError, MethodNotFound); broadcast tag lists sometimes name every tag twice. Behaviour J (success frame with cut-short JSON: a reply, not retried); zero retry delay on even script lengths; slow=<i>: a broadcast node that answers after default_timeout but within its own timeout must still be reported; a result carrying both a value and an error is a violation (driver-level clause). mon=3: the async scripts of length <= 2 are run again while three monitor tasks poll is_connected / connected_nodes from other runtime threads (observers only; same model and oracle). duo=1: two concurrent callers (call_json / call_message) share one node's cached connection; caller A's request is read and never answered, caller B's request, sent half a timeout later, is answered as soon as A has given its first attempt up, well inside B's deadline (ready=1 records that the node wrote the reply in time, otherwise the case is not judged); driver-level clauses: B reports that reply after exactly one attempt and the node sees B's request exactly once, A stays within max_attempts and reports an error, one of two calls afterwards succeeds. cut=<spec> (async, json/msg, current-thread and multi-thread runtime, max_attempts 1 and 3): before the scenario with the empty script (node healthy throughout: first call, two follow-up calls, one untagged broadcast) one call on the cold node is abandoned by its caller, i.e. its future is dropped when it is pending for the k-th time (p1 = inside the TCP connect, p2.. = connected / waiting for the reply, p3-p4 = usually finished) or after a number of microseconds (t<us>); busy=1: the node is slow to accept (accept queue full) until the abandoned call has been dropped, so the connect pends for as long as the caller waits; ab=S: the node does not answer the abandoned request; the abandoned call's attempts are not counted; the same model and oracle judge the calls (a call that has not returned after a 5 s watchdog is reported as hung = an error result and ends the case), driver-level clauses: no call hangs, the broadcast returns exactly one successful result for the node.",
         "timeout_s": {"quick": 900, "thorough": 3400},
     },
     "C17": {
@@ -309,7 +309,7 @@ PROPS = {
         "harness": "c14", "driver": "c14", "shards": 16, "harness_shards": 4,
         "classify": c14_class,
         "nontrivial": lambda cls: cls["wrote"] == "True" or cls["called"] == "True",
-        "rule": "cases = every sequence of length <=4 (quick) / <=5 (thorough) over write/read/register_function/register_value on 3 pointers x 3 values (18 symbols), directly and (one level shallower) through Router::with_registry; directed malformed pointers, array-index spellings and mount prefixes x paths; random sequences <=100 ops over pointers with ~0/~1 escapes, empty tokens, index aliases, deep nesting, a third through a mount with JSON/UTF-8/raw/unsupported bodies; after every operation the answer (value / error code / RegistryError variant), the whole root document and the call log are recorded, plus eval_json_pointer/parse_json_pointer on reads; 2-4 threads x 1-4 concurrent requests on a fixed function table with logical timestamps, checked by linearizability search (real-time order) against the extracted model and specification; distinct = distinct case; non-trivial = a write succeeded or a callable ran Cancel reason 0 is the empty string.",
+        "rule": "cases = every sequence of length <=4 (quick) / <=5 (thorough) over write/read/register_function/register_value on 3 pointers x 3 values (18 symbols), directly and (one level shallower) through Router::with_registry; directed malformed pointers, array-index spellings and mount prefixes x paths; random sequences <=100 ops over pointers with ~0/~1 escapes, empty tokens, index aliases, deep nesting, a third through a mount with JSON/UTF-8/raw/unsupported bodies; after every operation the answer (value / error code / RegistryError variant), the whole root document and the call log are recorded, plus eval_json_pointer/parse_json_pointer on reads; 2-4 threads x 1-4 concurrent requests on a fixed function table with logical timestamps, checked by linearizability search (real-time order) against the extracted model and specification; distinct = distinct case; non-trivial = a write succeeded or a callable ran Cancel reason 0 is the empty string. nest=1 cases (sequences and concurrent histories): an operation that invokes a callable has the next operation of its list (read, write, registration, merge, another call, directly or through the mount) executed from inside that callable on the same registry, under a 6 s watchdog (a call must return); judged as the ordinary sequence / history. rounds= cases: several rounds of one concurrent history (threads released together at a spinning gate, fresh registry per round, per-operation call logs): merge_at into a 400-key object racing writes and read-backs of sibling keys below it (8 rounds); register_function at pointers that already hold a callable racing calls through ONE shared Router::with_registry mount (250 rounds; a call after the registration returned must run the new callable); calls whose callable dwells 0-60 us and then reads or writes the registry while other threads write (16 rounds); each round judged by the linearizability search with merges and re-registrations as operations (memo key = document and callable table).",
         "timeout_s": {"quick": 900, "thorough": 3400},
     },
     "C09": {
@@ -323,13 +323,13 @@ PROPS = {
         "harness": "c04", "driver": "c04", "shards": 2, "harness_shards": 8,
         "classify": c04_class,
         "nontrivial": lambda cls: cls["callers"] != "1" and (cls["reordered"] == "True" or cls["features"] != "none"),
-        "rule": "cases = for each client (blocking, async, WebSocket): every permutation of the reply order for n<=4 (quick) / n<=6 (thorough) concurrent callers on clones of one client, each once plain and once with injected unknown-id, duplicate and (WebSocket) notify frames (reusing in-flight and free ids); random orders with unanswered callers for n<=16 / n<=64; batch_json of 1..40 requests answered in a shuffled order; 200 / 2000 model-sampled interleavings of register/write/receive-match/deliver/timeout/cancel for 2-4 callers forced by parking threads/tasks at the verif-hooks probe points; plus, AsyncClient only, 150 / 1500 cases of forward_message with (a) an in-flight id, (b) a free id, (c) the id the counter reaches next, (d) a notify message, (e) the id of an in-flight forward, and 3 directed + 150 / 1500 generated id-reuse cases (a forward or counter call registering the id of a call that is finished or matched-but-undelivered, the first call then timing out or being cancelled; includes the replay of the defect repaired in 76754fa); the scripted server never answers a request whose id currently belongs to another call; observation = caller -> (reply tag | timeout | cancel | refused | none | io error), subscriber tags, sorted ids of the counter-issued requests; distinct = distinct case; non-trivial = >1 caller and (reordered replies or an injected/timeout/cancel/forward step) Frames nobody is waiting for (unknown id, second answer, answer after timeout/cancel) carry error codes 0/7/9/4096; WebSocket cases also run without a notification subscriber (sub=0, model_C04_nosub); batches of 1..40 and 63..200 requests; harness-only burner steps Z/z (a call whose body fails to serialize) with ids compared by rank.",
+        "rule": "cases = for each client (blocking, async, WebSocket): every permutation of the reply order for n<=4 (quick) / n<=6 (thorough) concurrent callers on clones of one client, each once plain and once with injected unknown-id, duplicate and (WebSocket) notify frames (reusing in-flight and free ids); random orders with unanswered callers for n<=16 / n<=64; batch_json of 1..40 requests answered in a shuffled order; 200 / 2000 model-sampled interleavings of register/write/receive-match/deliver/timeout/cancel for 2-4 callers forced by parking threads/tasks at the verif-hooks probe points; plus, AsyncClient only, 150 / 1500 cases of forward_message with (a) an in-flight id, (b) a free id, (c) the id the counter reaches next, (d) a notify message, (e) the id of an in-flight forward, and 3 directed + 150 / 1500 generated id-reuse cases (a forward or counter call registering the id of a call that is finished or matched-but-undelivered, the first call then timing out or being cancelled; includes the replay of the defect repaired in 76754fa); the scripted server never answers a request whose id currently belongs to another call; observation = caller -> (reply tag | timeout | cancel | refused | none | io error), subscriber tags, sorted ids of the counter-issued requests; distinct = distinct case; non-trivial = >1 caller and (reordered replies or an injected/timeout/cancel/forward step) Frames nobody is waiting for (unknown id, second answer, answer after timeout/cancel) carry error codes 0/7/9/4096; WebSocket cases also run without a notification subscriber (sub=0, model_C04_nosub); batches of 1..40 and 63..200 requests; harness-only burner steps Z/z (a call whose body fails to serialize) with ids compared by rank. stall=<i>:<off>:<ms> (par cases on the two raw-TCP clients, 8 async + 4 blocking quick / 24 + 12 thorough): the i-th frame of the script (never the last) reaches the client in two pieces, <off> bytes (inside the length prefix, the header, right after it, inside the query or the body), then 0.7..1.4 s of silence, then the rest, while the other calls are in flight. mode=spin (blocking client, 4 cases quick / 12 thorough): 8 threads on clones of the one client make 200 rounds of calls, all 8 released at the same instant from a spin barrier in every round (a sleeping barrier first, so that every thread arrives freshly woken), the server answering each round in a shuffled order: 1600 callers per case, each must get its own response and the 1600 ids must be distinct.",
         "timeout_s": {"quick": 900, "thorough": 3400},
     },
     "C03": {
         "harness": "c03", "driver": "c03", "shards": 4, "harness_shards": 8,
         "classify": c03_class, "nontrivial": lambda cls: cls["handler_ran"] == "True",
-        "rule": "cases = pipelines (quick <=16, thorough <=64 requests) of hand-built frames over the product version {1,0,2,255,100} x query-format code {1,0,2,0xffff,0x101} x UTF-8/non-UTF-8 queries x 15 routes (json, typed, json-ctx, typed-ctx each inline and _blocking, with_handler adapter, typed slice, typed slice ref, erased inline/off-reader, registry mount with two callables, struct mount) and 12 unregistered paths x body-format codes {0,1,2,3,unknown} x body encodings (JSON, BEVE, typed/aligned slices, generic empty array, truncated, garbage, empty, mismatched announcement) x notify byte {0,1,2,0x80,0xff} x middleware refusal, with and without a registered middleware, sent to blocking TCP, async TCP and WebSocket servers; plus WebSocket-only pipelines with panicking off-reader handlers and with the off-reader permit pool (limit 1) held by a gated handler; a hidden sync request ends each pipeline, then a 150 ms grace detects extra frames; distinct = distinct case line; non-trivial = at least one user function ran TCP pipelines are sent in one write together with the first 20 bytes of the sync request and collected in two phases: every owed response must arrive before the rest of the sync request is sent (a response that shows up only afterwards is reported as withheld). gap= cases trickle notifies into an async server with a 400 ms read timeout. Erased handlers also return error responses carrying their own query.",
+        "rule": "cases = pipelines (quick <=16, thorough <=64 requests) of hand-built frames over the product version {1,0,2,255,100} x query-format code {1,0,2,0xffff,0x101} x UTF-8/non-UTF-8 queries x 15 routes (json, typed, json-ctx, typed-ctx each inline and _blocking, with_handler adapter, typed slice, typed slice ref, erased inline/off-reader, registry mount with two callables, struct mount) and 12 unregistered paths x body-format codes {0,1,2,3,unknown} x body encodings (JSON, BEVE, typed/aligned slices, generic empty array, truncated, garbage, empty, mismatched announcement) x notify byte {0,1,2,0x80,0xff} x middleware refusal, with and without a registered middleware, sent to blocking TCP, async TCP and WebSocket servers; plus WebSocket-only pipelines with panicking off-reader handlers and with the off-reader permit pool (limit 1) held by a gated handler; a hidden sync request ends each pipeline, then a 150 ms grace detects extra frames; distinct = distinct case line; non-trivial = at least one user function ran TCP pipelines are sent in one write together with the first 20 bytes of the sync request and collected in two phases: every owed response must arrive before the rest of the sync request is sent (a response that shows up only afterwards is reported as withheld). gap= cases trickle notifies into an async server with a 400 ms read timeout. Erased handlers also return error responses carrying their own query. cuts=<ms>:<offsets> cases (both TCP servers, 2..4 requests): a request leaves the peer in two pieces with a 400 ms pause after the given offset of its frame (inside the header, at the header/query boundary, inside the query, at the query/body boundary, inside the body, one byte before the end). oq=1..3 hold=<ms> cases (WebSocket only): a server of its own whose outbound queue holds 1..3 messages, over 4 KiB socket buffers; the peer sends 40..64 requests (user functions pad their results to 0.5..1 KiB, op pad) and reads nothing until everything is sent, waits 300 ms, lets the parked off-reader handlers return together, waits 300 ms more and only then reads; flavours: inline routes only / 3..8 gated off-reader requests first / inline and off-reader routes interleaved; judged by the ordinary model (one response each, reader-answered ones in arrival order).",
         "timeout_s": {"quick": 900, "thorough": 3400},
     },
     "C15": {
@@ -342,7 +342,7 @@ PROPS = {
         "harness": "c16", "driver": "c16", "shards": 2, "harness_shards": 16,
         "classify": c16_class,
         "nontrivial": lambda cls: cls["refused_at_cap"] == "True" or cls["notify_dropped"] == "True" or cls["panic"] == "True",
-        "rule": "cases = scripted histories on one live WebSocket connection with with_offreader_limit(cap), cap 1..3 and unlimited (quick) / 1..16 and unlimited (thorough), 0..2 middlewares: for cap <= 3 every release order x every exit kind {return, error, panic}^cap x every notify pattern (sampled 1/17 in quick), each with 4 x cap parked requests over the json/typed/ctx blocking routes, inline requests and notifies interleaved during saturation, optional refill after each exit, a fresh batch of cap (+1 refused) after all exits and a final inline call; random release orders for larger caps; random walks of 5..120 events; handlers park on per-request channels and keep an atomic gauge; a raw tungstenite peer with hand-built frames waits for the effect of every event; distinct = distinct script; non-trivial = a request was refused or dropped at the cap, or a handler panicked; bursts (pipe=1, oq=1..4): at the cap 2..96 requests leave the client in one write while the server's outbound queue holds 1..4 messages; odd tags panic with a non-string payload; slowrej= (a refusal at the cap that took more than 150 ms; driver-level clause) pipe=2 oq=1..2: cap+2..40 blocking requests leave the client in one write into a FREE pool (exactly the first cap are admitted), then all parked handlers are released at the same instant, half of them by panic (replies of such a group are compared as a set, in script order). stallq=<ms> oq=1..3: the handler holding the last slot (ctx route) keeps the outbound queue full with 32 KiB pushes over 4 KiB socket buffers, the peer does not read; a request arriving at the cap waits behind the writer for 150..600 ms and is then refused with its id, the connection lives on.",
+        "rule": "cases = scripted histories on one live WebSocket connection with with_offreader_limit(cap), cap 1..3 and unlimited (quick) / 1..16 and unlimited (thorough), 0..2 middlewares: for cap <= 3 every release order x every exit kind {return, error, panic}^cap x every notify pattern (sampled 1/17 in quick), each with 4 x cap parked requests over the json/typed/ctx blocking routes, inline requests and notifies interleaved during saturation, optional refill after each exit, a fresh batch of cap (+1 refused) after all exits and a final inline call; random release orders for larger caps; random walks of 5..120 events; handlers park on per-request channels and keep an atomic gauge; a raw tungstenite peer with hand-built frames waits for the effect of every event; distinct = distinct script; non-trivial = a request was refused or dropped at the cap, or a handler panicked; bursts (pipe=1, oq=1..4): at the cap 2..96 requests leave the client in one write while the server's outbound queue holds 1..4 messages; odd tags panic with a non-string payload; slowrej= (a refusal at the cap that took more than 150 ms; driver-level clause) pipe=2 oq=1..2: cap+2..40 blocking requests leave the client in one write into a FREE pool (exactly the first cap are admitted), then all parked handlers are released at the same instant, half of them by panic (replies of such a group are compared as a set, in script order). stallq=<ms> oq=1..3: the handler holding the last slot (ctx route) keeps the outbound queue full with 32 KiB pushes over 4 KiB socket buffers, the peer does not read; a request arriving at the cap waits behind the writer for 150..600 ms and is then refused with its id, the connection lives on; one case in which the handler itself leaves during a 5.6 s stall (its reply is delivered once the peer reads).",
         "timeout_s": {"quick": 900, "thorough": 3400},
     },
     "C08": {
@@ -355,13 +355,13 @@ PROPS = {
     "C06": {
         "harness": "c06", "driver": "c06", "shards": 2, "harness_shards": 16, "classify": c06_class,
         "nontrivial": lambda cls: cls["fault"] != "none" or cls["timeout"] == "True" or cls["cancel"] == "True",
-        "rule": "for each client (blocking, async, WebSocket): faults injected by a raw scripted peer after k of n requests were read — clean close, RST (SO_LINGER 0), bad magic, length mismatch, query_length=2^64-21/body_length=100, body_length=2^62, header truncated at 20 and 47 bytes, body truncated at 5 offsets, truncated then RST; on WebSocket also close frame, text frame, reserved bits, masked server frame, unknown opcode — with n = 0..3 (quick) / 0..16 (thorough) calls in flight, with and without per-call timeouts, then two later calls; the same with the reader parked at fail.after_shutdown (subscriber state, a later call, a cancel, then the drain); all lives of 2 / 3 calls over {answered, expired, expiry forced before removal / after take / before lookup via probes, cancelled, cancel forced after take / before lookup, pending}, sequential and overlapped, with late responses, an unknown-id response and forward_message residue probes, then a fresh call that must still work; the stalled-writer scenario (8 MiB request to a peer with 4 KiB SO_RCVBUF that does not read) on all three clients; 150 / 1500 random valid scenarios; 5 s watchdog per wait; distinct = distinct case line; non-trivial = a fault, timeout or cancel occurred XZ: a 1 ns per-call timeout. ham=1 (async client): call 0 stays in flight while 12 / 40 further calls expire or are cancelled and two tasks keep the pending-map lock busy (forwards refused as duplicates of call 0, never reaching the wire); every finished call is then probed for residue.",
+        "rule": "for each client (blocking, async, WebSocket): faults injected by a raw scripted peer after k of n requests were read — clean close, RST (SO_LINGER 0), bad magic, length mismatch, query_length=2^64-21/body_length=100, body_length=2^62, header truncated at 20 and 47 bytes, body truncated at 5 offsets, truncated then RST; on WebSocket also close frame, text frame, reserved bits, masked server frame, unknown opcode — with n = 0..3 (quick) / 0..16 (thorough) calls in flight, with and without per-call timeouts, then two later calls; the same with the reader parked at fail.after_shutdown (subscriber state, a later call, a cancel, then the drain); all lives of 2 / 3 calls over {answered, expired, expiry forced before removal / after take / before lookup via probes, cancelled, cancel forced after take / before lookup, pending}, sequential and overlapped, with late responses, an unknown-id response and forward_message residue probes, then a fresh call that must still work; the stalled-writer scenario (8 MiB request to a peer with 4 KiB SO_RCVBUF that does not read) on all three clients; 150 / 1500 random valid scenarios; 5 s watchdog per wait; distinct = distinct case line; non-trivial = a fault, timeout or cancel occurred XZ: a 1 ns per-call timeout. ham=1 (async client): call 0 stays in flight while 12 / 40 further calls expire or are cancelled and two tasks keep the pending-map lock busy (forwards refused as duplicates of call 0, never reaching the wire); every finished call is then probed for residue. q=1 (harness-only switch, all three clients): in a stalled-writer scenario W:b;F:k;S:c the call c is started before the fault is injected - it has passed its before_write probe and waits for the writer lock held by the stalled call b when the connection fails (faults that leave the connection open with the peer still not reading, and a close); in flight or later, the property demands an error of it within the watchdog, so the model's verdict is unchanged.",
         "timeout_s": {"quick": 900, "thorough": 3400},
     },
     "C05": {
         "harness": "c05", "driver": "c05", "shards": 1, "harness_shards": 8, "classify": c05_class,
         "nontrivial": lambda cls: cls["writers"] != "1" or cls["torn"] == "True",
-        "rule": "per repetition (1 quick, 10 thorough): for each of blocking Client, AsyncClient, WebSocketClient, Server, AsyncServer and WebSocketServer, cases with 32, 16, 1-3 or 2-12 concurrent writers (threads or tasks on clones, pipelined requests, off-reader or inline responses plus pushed notifies) with frame lengths straddling 8 KiB, 16 KiB, 64 KiB, 212992, 1 MiB and 4 MiB (16/32 MiB in thorough) by -1/0/+1; stall with a 200 ms write timeout: an 8-32 MiB frame to a peer whose SO_RCVBUF was set to 4096 before listen/connect and which does not read for 900 ms, on Client, Server and AsyncServer; the same stall without a timeout on every endpoint; cancellation: an AsyncClient / WebSocketClient call aborted or timed out 0-200 ms into writing 8-16 MiB to a stalled peer; every case ends with two probe calls, then the raw peer reads to end of stream and analyses it with an independent byte-exact parser (tag, sequence number, position-keyed body pattern, checksum per frame); small streams are also parsed by the extracted Coq parse_frames; distinct = distinct case; non-trivial = more than one writer or a torn frame Also: blocking client with hundreds of frames that each fit the 8 KiB write buffer against a stalled peer with a write timeout; servers whose interrupted response is the last of the pipeline; cancelq (writers already queued behind the abandoned frame); a WebSocket server backlog of 200 queued pushes behind a stalled peer. Driver-level clauses: idle= (the bytes a server had put on the wire before the probes must end at a frame boundary; last responses of 8192/8193/8200/8239 bytes), hung= (a call whose request left whole but which ended only by its own 20 s timeout).",
+        "rule": "per repetition (1 quick, 10 thorough): for each of blocking Client, AsyncClient, WebSocketClient, Server, AsyncServer and WebSocketServer, cases with 32, 16, 1-3 or 2-12 concurrent writers (threads or tasks on clones, pipelined requests, off-reader or inline responses plus pushed notifies) with frame lengths straddling 8 KiB, 16 KiB, 64 KiB, 212992, 1 MiB and 4 MiB (16/32 MiB in thorough) by -1/0/+1; stall with a 200 ms write timeout: an 8-32 MiB frame to a peer whose SO_RCVBUF was set to 4096 before listen/connect and which does not read for 900 ms, on Client, Server and AsyncServer; the same stall without a timeout on every endpoint; cancellation: an AsyncClient / WebSocketClient call aborted or timed out 0-200 ms into writing 8-16 MiB to a stalled peer; every case ends with two probe calls, then the raw peer reads to end of stream and analyses it with an independent byte-exact parser (tag, sequence number, position-keyed body pattern, checksum per frame); small streams are also parsed by the extracted Coq parse_frames; distinct = distinct case; non-trivial = more than one writer or a torn frame Also: blocking client with hundreds of frames that each fit the 8 KiB write buffer against a stalled peer with a write timeout; servers whose interrupted response is the last of the pipeline; cancelq (writers already queued behind the abandoned frame); a WebSocket server backlog of 200 queued pushes behind a stalled peer. Driver-level clauses: idle= (the bytes a server had put on the wire before the probes must end at a frame boundary; last responses of 8192/8193/8200/8239 bytes), hung= (a call whose request left whole but which ended only by its own 20 s timeout). Stall cases whose stall is 1.2x .. 2.5x the write timeout (AsyncServer 400 ms: 480, 560, 640, 720, 1000 ms; blocking Client and Server 200 ms: 240, 320, 500 ms): the peer reads again shortly after the timeout cut the frame, so anything written on the connection after the interruption arrives behind the torn frame.",
         "timeout_s": {"quick": 900, "thorough": 3400},
     },
 }
